@@ -1520,6 +1520,198 @@ theorem error_in_end {dbg : DebugOracle} {fs : Fields} (hp : passesJSON endField
   rw [typedError_eq hn (keysWithin_iff.mp hkw), hE]
   exact hf
 
+/-! ### type URLs and the debug comparison -/
+
+theorem takeWhile_stop {α} (p : α → Bool) (l : List α) (a : α) (r : List α)
+    (hl : ∀ x ∈ l, p x = true) (ha : p a = false) : (l ++ a :: r).takeWhile p = l := by
+  induction l with
+  | nil => simp [ha]
+  | cons x t ih =>
+    have hx : p x = true := hl x (by simp)
+    simp only [List.cons_append, List.takeWhile_cons, hx, if_true]
+    rw [ih (fun y hy => hl y (by simp [hy]))]
+
+theorem takeWhile_all {α} (p : α → Bool) (l : List α) (hl : ∀ x ∈ l, p x = true) : l.takeWhile p = l := by
+  induction l with
+  | nil => rfl
+  | cons x t ih =>
+    have hx : p x = true := hl x (by simp)
+    simp only [List.takeWhile_cons, hx, if_true]
+    rw [ih (fun y hy => hl y (by simp [hy]))]
+
+theorem mem_takeWhile_pos {α} (p : α → Bool) (l : List α) (x : α) (hx : x ∈ l.takeWhile p) : p x = true := by
+  induction l with
+  | nil => cases hx
+  | cons a t ih =>
+    by_cases ha : p a = true
+    · simp only [List.takeWhile_cons, ha, if_true, List.mem_cons] at hx
+      rcases hx with rfl | hx
+      · exact ha
+      · exact ih hx
+    · have ha' : p a = false := by simpa using ha
+      simp [ha'] at hx
+
+theorem dropWhile_head {α} (p : α → Bool) (l : List α) :
+    l.dropWhile p = [] ∨ ∃ c r, l.dropWhile p = c :: r ∧ p c = false := by
+  induction l with
+  | nil => exact Or.inl rfl
+  | cons a t ih =>
+    by_cases ha : p a = true
+    · simpa [List.dropWhile_cons, ha] using ih
+    · have ha' : p a = false := by simpa using ha
+      exact Or.inr ⟨a, t, by simp [ha'], ha'⟩
+
+theorem notSlash_of_not_mem (n : Bytes) (hn : (47 : UInt8) ∉ n) :
+    ∀ x ∈ n.reverse, (fun c : UInt8 => c != 47) x = true := by
+  intro x hx
+  have hx' : x ∈ n := by simpa using hx
+  have : x ≠ 47 := fun h => hn (h ▸ hx')
+  simpa using this
+
+/-- whatever stands in front of the last slash, the name is what follows it -/
+theorem typeNameOfUrl_prefixed (p n : Bytes) (hn : (47 : UInt8) ∉ n) : typeNameOfUrl (p ++ 47 :: n) = n := by
+  unfold typeNameOfUrl
+  have hrev : (p ++ 47 :: n).reverse = n.reverse ++ 47 :: p.reverse := by simp
+  rw [hrev, takeWhile_stop _ _ _ _ (notSlash_of_not_mem n hn) (by simp)]
+  simp
+
+theorem typeNameOfUrl_noSlash (n : Bytes) (hn : (47 : UInt8) ∉ n) : typeNameOfUrl n = n := by
+  unfold typeNameOfUrl
+  rw [takeWhile_all _ _ (notSlash_of_not_mem n hn)]
+  simp
+
+theorem typeNameOfUrl_iff (url n : Bytes) : typeNameOfUrl url = n ↔ urlNames url n = true := by
+  unfold urlNames
+  simp only [Bool.and_eq_true, Bool.not_eq_true', Bool.or_eq_true, beq_iff_eq, List.isSuffixOf_iff_suffix]
+  constructor
+  · intro h
+    have hsplit := List.takeWhile_append_dropWhile (p := fun c : UInt8 => c != 47) (l := url.reverse)
+    have hn : (47 : UInt8) ∉ n := by
+      intro hm
+      rw [← h] at hm
+      unfold typeNameOfUrl at hm
+      have := mem_takeWhile_pos _ _ _ (List.mem_reverse.mp hm)
+      simp at this
+    refine ⟨by simpa using hn, ?_⟩
+    have hn' : (url.reverse.takeWhile (fun c : UInt8 => c != 47)) = n.reverse := by
+      unfold typeNameOfUrl at h
+      rw [← h]; simp
+    rcases dropWhile_head (fun c : UInt8 => c != 47) url.reverse with hd | ⟨c, r, hd, hc⟩
+    · left
+      rw [hd, List.append_nil, hn'] at hsplit
+      have := congrArg List.reverse hsplit
+      simpa using this.symm
+    · right
+      have hc' : c = 47 := by simpa using hc
+      subst hc'
+      rw [hd, hn'] at hsplit
+      have := congrArg List.reverse hsplit
+      simp only [List.reverse_append, List.reverse_cons, List.reverse_reverse, List.append_assoc,
+        List.singleton_append] at this
+      exact ⟨r.reverse, this⟩
+  · rintro ⟨hn, h⟩
+    have hn' : (47 : UInt8) ∉ n := by simpa using hn
+    rcases h with rfl | ⟨p, rfl⟩
+    · exact typeNameOfUrl_noSlash _ hn'
+    · exact typeNameOfUrl_prefixed p n hn'
+
+theorem debugDataFb_none_iff (msgName : Bytes) (s : DebugSteps) :
+    debugDataFb msgName s = none ↔ debugOK msgName s = true := by
+  unfold debugDataFb debugOK
+  cases hr : s.resolved <;> cases hv : s.valueOK <;> cases hd : s.directOK <;> cases he : s.eqDirect <;>
+    simp
+  all_goals
+    cases hu : s.anyUrl with
+    | none => simp
+    | some url =>
+      simp only []
+      by_cases hn : typeNameOfUrl url = msgName
+      · have hu' : urlNames url msgName = true := (typeNameOfUrl_iff url msgName).mp hn
+        cases hnw : s.newOK <;> cases hea : s.eqAny <;> simp [hn, hu']
+      · have hu' : urlNames url msgName = false := by
+          cases h : urlNames url msgName with
+          | false => rfl
+          | true => exact absurd ((typeNameOfUrl_iff url msgName).mpr h) hn
+        simp [hn, hu']
+
+/-! ### the declarative side looks at the oracle only through "is it silent" -/
+
+theorem detailOK_congr {d1 d2 : DebugOracle} (h : ∀ i t d, (d1 i t d).isNone = (d2 i t d).isNone)
+    (i : Nat) (j : Json) : detailOK d1 i j = detailOK d2 i j := by
+  cases j with
+  | obj fs =>
+    simp only [detailOK]
+    cases hT : lookup fs jkType with
+    | none => rfl
+    | some a =>
+      cases a with
+      | str t =>
+        cases hV : lookup fs jkValue with
+        | none => rfl
+        | some b =>
+          cases b with
+          | str v =>
+            simp only []
+            cases hR : rawStdDecode v with
+            | none => rfl
+            | some data => simp only [h]
+          | _ => rfl
+      | _ => rfl
+  | _ => rfl
+
+theorem detailsOK_congr {d1 d2 : DebugOracle} (h : ∀ i t d, (d1 i t d).isNone = (d2 i t d).isNone)
+    (i : Nat) (xs : List Json) : detailsOK d1 i xs = detailsOK d2 i xs := by
+  induction xs generalizing i with
+  | nil => rfl
+  | cons x t ih => simp only [detailsOK, detailOK_congr h, ih]
+
+theorem errorOK_congr {d1 d2 : DebugOracle} (h : ∀ i t d, (d1 i t d).isNone = (d2 i t d).isNone)
+    (doc : Json) : errorOK d1 doc = errorOK d2 doc := by
+  cases doc with
+  | obj fs =>
+    simp only [errorOK]
+    cases hD : lookup fs jkDetails with
+    | none => rfl
+    | some a =>
+      cases a with
+      | arr xs => simp only [detailsOK_congr h]
+      | _ => rfl
+  | _ => rfl
+
+theorem endStreamOK_congr {d1 d2 : DebugOracle} (h : ∀ i t d, (d1 i t d).isNone = (d2 i t d).isNone)
+    (doc : Json) : endStreamOK d1 doc = endStreamOK d2 doc := by
+  cases doc with
+  | obj fs =>
+    simp only [endStreamOK]
+    cases hE : lookup fs jkError with
+    | none => rfl
+    | some a =>
+      cases a with
+      | obj efs => simp only [errorOK_congr h]
+      | _ => rfl
+  | _ => rfl
+
+theorem detailsFine_congr {d1 d2 : DebugOracle} (h : ∀ i t d, (d1 i t d).isNone = (d2 i t d).isNone)
+    (i : Nat) (ds : List Detail) : detailsFine d1 i ds = detailsFine d2 i ds := by
+  induction ds generalizing i with
+  | nil => rfl
+  | cons x t ih =>
+    unfold detailsFine
+    rw [ih]
+    cases x.debug with
+    | none => rfl
+    | some j => simp only [h]
+
+theorem steps_spec_isNone (st : StepsOracle) (i : Nat) (t d : Bytes) :
+    (stepsOracle st i t d).isNone = (debugSpecOracle st i t d).isNone := by
+  unfold stepsOracle debugSpecOracle
+  cases hk : debugOK t (st i t d) with
+  | true => simp [(debugDataFb_none_iff t (st i t d)).mpr hk]
+  | false =>
+    cases hf : debugDataFb t (st i t d) with
+    | none => rw [(debugDataFb_none_iff t (st i t d)).mp hf] at hk; cases hk
+    | some f => simp
+
 theorem mapM_none {α β} (f : α → Option β) (l : List α) (a : α) (ha : a ∈ l) (hf : f a = none) :
     Base64.mapM? f l = none := by
   induction l with
